@@ -328,6 +328,29 @@ pub fn main(args: &util::Args) {
         }
         let _ = std::fs::remove_dir_all(&dir);
     }
+    // constructor names in PATTERN position under a local binder of the same spelling (harness/src/patpos.rs):
+    // programs that print, by construction, what first-match semantics on the written patterns prints; a third
+    // of the catalogue (chosen by the seed) in the quick tier — C06 and C05 run all of it
+    {
+        let dir = util::scratch_dir("c01q");
+        for (i, case) in crate::patpos::catalogue().into_iter().enumerate() {
+            if args.tier != "thorough" && i % 3 != (args.seed % 3) as usize {
+                continue;
+            }
+            let entry = dir.join("main.gom");
+            match util::compile_text(&dir, &case.src) {
+                Outcome::Ok(c) => {
+                    writeln!(out, "{}\tEXPECT\tout\t{}", case.id, crate::sexp::esc_line(&case.expected)).unwrap();
+                    writeln!(out, "{}\tSRC\t{}", case.id, crate::sexp::esc_line(&case.src)).unwrap();
+                    dump_src(&case.id, &entry, &case.src, &mut out);
+                    dump_case(&case.id, &c, &mut out);
+                }
+                Outcome::Err(stage, msgs) => writeln!(out, "{}\tREJECT\t{}\t{}\t{}", case.id, stage, crate::sexp::esc_line(&msgs.join(" | ")), crate::sexp::esc_line(&case.src)).unwrap(),
+                Outcome::Panic(m) => writeln!(out, "{}\tPANIC\t{}\t{}", case.id, crate::sexp::esc_line(&m), crate::sexp::esc_line(&case.src)).unwrap(),
+            }
+        }
+        let _ = std::fs::remove_dir_all(&dir);
+    }
     // generated programs (G-prog)
     let total = args.n.unwrap_or(if args.tier == "thorough" { 3000 } else { 300 });
     let dir = util::scratch_dir("c01");
